@@ -573,10 +573,11 @@ PROPS['C02'] = {
             'KDB: forests of 1..7 groups by level numbers (depth <= 6), 0..5 entries assigned to arbitrary group ids with random subsets of the seven field kinds, records in shuffled order with optional '
             'comment records, AES / Twofish, credential compositions; every 10th KDB forest draws group names from {A, A, B} (repeated sibling names); '
             'oracles: the intended database (KDBX3) and the textbook denotation of (level, id) records (KDB)',
-    'partial': ['C02 for KDB is false on the unchanged code when sibling groups share a name (F11, theorem C02_kdb_full_false); the partial statement covers forests with pairwise distinct sibling names',
-                'KDBX3 framing: the hashed block stream is proved for every partition; the header TLV loop and the XML mapping are validated against the real reader, not proved'],
-    'level_text': 'Kernel-checked: the hashed block reader returns the data for every partition into blocks (hashedBlocks_write); evaluation-level theorems for the KDB level-driven tree construction and entry placement, '
-                  'including the witness that refutes the full statement. Faithful Lean models of decrypt_kdbx3 and parse_kdb are run against Database::get_xml/parse on every generated file.',
+    'partial': ['C02 for KDB was false on the code as found when sibling groups share a name (F11); repaired in /repo, the model follows the repaired code',
+                'the KDB level-driven tree construction is validated against the textbook denotation on generated forests and proved on witnesses; the XML mapping is validated, not proved'],
+    'level_text': 'Kernel-checked: C02_kdbx3_framing — for every primitive family with the laws, configuration, header field order (with comment fields), end payload and block partition, decrypt_kdbx3 returns the stored configuration, '
+                  'inner key and document; evaluation-level theorems for the KDB level-driven tree construction and entry placement incl. the inputs of finding F11. '
+                  'Faithful Lean models of decrypt_kdbx3 and parse_kdb are run against Database::get_xml/parse on every generated file.',
 }
 for _pid, _ops in (('C01', ['frame-wf', 'surface']), ('C04', ['frame-cred', 'legacy-cred']), ('C06', ['frame-fuzz', 'legacy-fuzz', 'xml-fuzz'])):
     PROPS[_pid]['ops'] = _ops
